@@ -121,8 +121,17 @@ PROPERTIES = {
                        "exactly the single-definition models. bounded stand-in: traversal (_occurrences), cycle check, glue, both "
                        "directions on adversarial id/bounds palettes.",
     },
-    "C11": {"rt": ["rt.arrays:c11_reduce"], "level": "other", "assumptions": S_ALL,
-            "explanation": "bounded stand-in only so far: matrices up to 3x3 against brute-force solution sets"},
+    "C11": {"harness_modules": ["contracts.c11"], "rt": ["rt.arrays:c11_reduce"], "level": "other",
+            "assumptions": S_ALL + ["S2 (exact division/floor, see C12)", "variable bounds within the 16-bit default range"],
+            "explanation": "deductive, bounded in shape and unbounded in values (symbolic coefficients, right-hand sides, bounds, forced "
+                           "values): reducable_rows sound and exact; reducable_columns_approx: a reported value is taken by every "
+                           "in-bounds integer solution and lies in the box; reduce_columns (shapes up to 2x3, every forced/NaN "
+                           "pattern): each row of the result is equivalent to the original row with the forced values re-inserted, "
+                           "variables follow the kept columns, index kept; reduce_rows (up to 3 rows, every flag pattern): kept rows, "
+                           "index and variables; the fix-point loop reducable_rows_and_columns for shapes 1x1 and 2x1 (1x2 in the "
+                           "thorough tier): forced columns are forced in every solution and flagged rows hold wherever the forced "
+                           "columns agree (the while loop is enumerated path by path, bounded by the shape). bounded stand-in: "
+                           "matrices up to 3x3 against brute-force solution sets, incl. the projection property end to end."},
     "C12": {"harness_modules": ["contracts.c12"], "rt": ["rt.arrays:c12_tighten"], "level": "other",
             "assumptions": S_ALL + ["S2: `/` is exact real division and floor the real floor (float rounding of numpy is NOT modelled; "
                                     "the stand-in sweeps coefficient magnitudes up to 130 with exact quotients for that)",
